@@ -16,7 +16,9 @@ What is extracted
     from `<owner>.<map>.values()` and sorted by `<v>.sort_by_key(|x| &x.info)` directly before;
     any other loop over a map of children, any other sort call or key is an error;
   * the ESCAPES table (pairs of char literals) and that `escape`/`unescape` look characters up in it;
-  * the header literals compared by `read` and written by `write`.
+  * the header literals compared by `read` and written by `write`;
+  * (round 5) that `write` calls `check_fields(mappings)` before anything is written, the characters
+    `check_field` refuses (contains / ends_with), and the exact shape of check_desc / check_names / check_fields.
 Fails closed: anything not of the expected shape is an error of the check, never guessed at.
 """
 import os
@@ -182,6 +184,38 @@ def translate():
     if ub is None or not re.search(r"if\s+c\s*==\s*'\\\\'\s*\{\s*if\s+let\s+Some\s*\(\s*&\s*\(\s*raw\s*,\s*_\s*\)\s*\)\s*=\s*chars\s*\.\s*peek\s*\(\s*\)\s*\.\s*and_then\s*\(\s*\|\s*&\s*e\s*\|\s*ESCAPES\s*\.\s*iter\s*\(\s*\)\s*\.\s*find\s*\(\s*\|\s*x\s*\|\s*x\s*\.\s*1\s*==\s*e\s*\)\s*\)\s*\{\s*chars\s*\.\s*next\s*\(\s*\)\s*;\s*out\s*\.\s*push\s*\(\s*raw\s*\)\s*;\s*continue\s*;\s*\}\s*\}\s*out\s*\.\s*push\s*\(\s*c\s*\)\s*;", ub or ""):
         errs.append("tiny_v2.rs: `unescape` is no longer the loop that replaces a backslash followed by an ESCAPES letter and keeps everything else")
 
+    # ---- the writer's check of every field before anything is written (check_fields) ----
+    cf_contains, cf_ends = [], []
+    nows = lambda t: re.sub(r"\s+", "", t or "")
+    if body is not None:
+        first = re.match(r"\s*check_fields\s*\(\s*mappings\s*\)\s*(?:\.\s*context\s*\(\s*\"(?:[^\"\\]|\\.)*\"\s*\)\s*)?\?\s*;", body)
+        if not first:
+            errs.append("tiny_v2.rs write: expected `check_fields(mappings)…?;` as the first statement (nothing may be written before the fields are checked)")
+    cfb = fn_body(tiny, "check_field")
+    m = re.fullmatch(r"\s*if\s+(.*?)\s*\{\s*bail!\s*\((?:[^\"]|\"(?:[^\"\\]|\\.)*\")*?\)\s*;\s*\}\s*Ok\s*\(\s*\(\s*\)\s*\)\s*", cfb or "", flags=re.S)
+    if not m:
+        errs.append("tiny_v2.rs: `check_field` is expected to be `if <field.contains('c') || … || field.ends_with('c')> { bail!(..); } Ok(())`")
+    else:
+        for term in m.group(1).split("||"):
+            t = re.fullmatch(r"\s*field\s*\.\s*(contains|ends_with)\s*\(\s*('(?:\\.|[^'\\])')\s*\)\s*", term)
+            c = char_lit(t.group(2)) if t else None
+            if c is None:
+                errs.append("tiny_v2.rs check_field: unreadable condition %r" % term.strip())
+            else:
+                (cf_contains if t.group(1) == "contains" else cf_ends).append(c)
+    if nows(fn_body(tiny, "check_desc")) != nows('if desc.as_str().is_err() { bail!("cannot write the descriptor {desc:?} as a field of a tiny v2 line: it contains an unpaired surrogate"); } check_field(desc)'):
+        errs.append("tiny_v2.rs: `check_desc` is no longer `if desc.as_str().is_err() { bail!(..) } check_field(desc)`")
+    if nows(fn_body(tiny, "check_names")) != nows("names.names().iter().flatten().try_for_each(|name| check_field(name.as_ref()))"):
+        errs.append("tiny_v2.rs: `check_names` is no longer `names.names().iter().flatten().try_for_each(|name| check_field(name.as_ref()))`")
+    want_cf = """for namespace in mappings.info.namespaces.names() { check_field(JavaStr::from_str(namespace))?; }
+        for class in mappings.classes.values() { check_names(&class.info.names)?;
+            for field in class.fields.values() { check_desc(field.info.desc.as_inner())?; check_names(&field.info.names)?; }
+            for method in class.methods.values() { check_desc(method.info.desc.as_inner())?; check_names(&method.info.names)?;
+                for parameter in method.parameters.values() { check_names(&parameter.info.names)?; } } }
+        Ok(())"""
+    if nows(fn_body(tiny, "check_fields")) != nows(want_cf):
+        errs.append("tiny_v2.rs: `check_fields` no longer checks every namespace with check_field, every descriptor with check_desc and every names row of classes, fields, methods and parameters with check_names")
+
     # ---- header literals of read ----
     hm = re.findall(r'header\s*\.\s*first_field\s*!=\s*"([^"\\]*)"\s*\|\|\s*header\s*\.\s*next\s*\(\s*\)\s*\?\s*!=\s*"([^"\\]*)"\s*\|\|\s*header\s*\.\s*next\s*\(\s*\)\s*\?\s*!=\s*"([^"\\]*)"', tiny)
     if len(hm) != 1:
@@ -204,6 +238,12 @@ def translate():
         lines.append("Definition %s : sortkey := %s." % (coq, keys[coq]))
     lines += ["", "(* const ESCAPES: (raw character, letter written after the backslash) *)",
               "Definition escapes_src : list (N * N) := [%s]." % "; ".join("(%d, %d)" % p for p in esc), "",
+              "(* check_field: a namespace, name or descriptor is refused if it contains one of / ends with one of *)",
+              "Definition check_field_contains : list N := [%s]." % "; ".join(str(c) for c in cf_contains),
+              "Definition check_field_ends_with : list N := [%s]." % "; ".join(str(c) for c in cf_ends),
+              "(* check_desc additionally needs `as_str()` to succeed; `write` calls check_fields before it writes anything *)",
+              "Definition check_desc_needs_str : bool := true.",
+              "Definition write_checks_first : bool := true.", "",
               "(* header literals compared by `read` *)",
               "Definition hdr_tag : str := %s.   (* \"%s\" *)" % (coq_str(hm[0][0]), hm[0][0]),
               "Definition hdr_major : str := %s.   (* \"%s\" *)" % (coq_str(hm[0][1]), hm[0][1]),
